@@ -144,17 +144,27 @@ Exec(i, st) ==
          IF IsOpaque(st.a) THEN [trust |-> st]
          ELSE IF ~HasTruth(st.a) THEN [unmodelled |-> TRUE]
          ELSE IF Truth(st.a) THEN Next1(st) ELSE [st EXCEPT !.pc = i.t]
-    [] i.op = "GoSub" -> [st EXCEPT !.gs = Append(@, st.pc), !.pc = i.t]
+    \* a pending GOSUB: where it stands, the call depth (a RETURN only takes a GOSUB of its own activation) and the depths of
+    \* the register and value stacks (RETURN cuts them back: it leaves the FOR / SELECT CASE blocks of the routine); pc < 0:
+    \* an entry the trace did not expose
+    [] i.op = "GoSub" -> [st EXCEPT !.gs = Append(@, [pc |-> st.pc, d |-> Len(st.ret), nr |-> Len(st.rs), nv |-> Len(st.vs)]), !.pc = i.t]
     [] i.op = "Return" ->
          IF st.gs = <<>> THEN [err |-> TRUE, c |-> 3]
-         ELSE IF i.t >= 0 THEN [st EXCEPT !.gs = Front(@), !.pc = i.t]
-         ELSE IF Last(st.gs) < 0 THEN [trust |-> [st EXCEPT !.gs = Front(@)]]
-         ELSE [st EXCEPT !.gs = Front(@), !.pc = Last(st.gs) + 1]
+         ELSE LET g == Last(st.gs)
+                  cut == [st EXCEPT !.gs = Front(@),
+                                    !.rs = IF Len(@) > g.nr THEN SubSeq(@, 1, g.nr) ELSE @,
+                                    !.vs = IF Len(@) > g.nv THEN SubSeq(@, 1, g.nv) ELSE @]
+              IN IF g.pc < 0 THEN [trust |-> [st EXCEPT !.gs = Front(@)]]
+                 ELSE IF g.d # Len(st.ret) THEN [err |-> TRUE, c |-> 3]
+                 ELSE IF i.t >= 0 THEN [cut EXCEPT !.pc = i.t]
+                 ELSE [cut EXCEPT !.pc = g.pc + 1]
     [] i.op = "PushRet" -> [Next1(st) EXCEPT !.ret = Append(@, i.t)]
     [] i.op = "PopRet" ->
          IF st.ret = <<>> THEN [unmodelled |-> TRUE]
-         ELSE IF Last(st.ret) < 0 THEN [trust |-> [st EXCEPT !.ret = Front(@)]]
-         ELSE [st EXCEPT !.ret = Front(@), !.pc = Last(st.ret)]
+         \* the GOSUBs of the procedure that ends are gone with it
+         ELSE LET keep == SelectSeq(st.gs, LAMBDA g : g.pc < 0 \/ g.d < Len(st.ret)) IN
+              IF Last(st.ret) < 0 THEN [trust |-> [st EXCEPT !.ret = Front(@), !.gs = keep]]
+              ELSE [st EXCEPT !.ret = Front(@), !.pc = Last(st.ret), !.gs = keep]
     \* RESUME leaves the handler's context; where it continues is computed from the statement table
     [] i.op \in {"Resume", "ResumeNext", "ResumeLabel"} ->
          IF Len(st.ctx) < 2 THEN [unmodelled |-> TRUE] ELSE [trust |-> [st EXCEPT !.ctx = Front(@)]]
